@@ -1,5 +1,5 @@
 (* Soundness theorem of the write-idempotence discipline with loops and reference arrays. *)
-From NiflyVerif Require Import IR Exec IREq Refs RtDefs RtProofs WiDefs WiProofs WkDefs EncInj WkProofs WkRefArr WkVec.
+From NiflyVerif Require Import IR Exec IREq Refs RtDefs RtProofs WiDefs WiProofs WkDefs EncInj WkProofs WkRefArr WkVec WkTrunc.
 Local Open Scope N_scope.
 
 Section Wk.
@@ -28,6 +28,22 @@ Section Wk.
     intros H. inversion H; subst. clear H.
     apply andb_prop in E. destruct E as [E E3]. apply andb_prop in E. destruct E as [E1 E2].
     apply N.eqb_eq in E1, E3. apply idx_eqb_eq in E2. subst. split; reflexivity.
+  Qed.
+
+  Lemma is_trunc_spec a b x w f idx wf :
+    is_trunc a b = Some (x, w, f, idx, wf) -> SSeq a b = trunc_stmt x w f idx wf /\ w <= wf.
+  Proof.
+    unfold is_trunc.
+    repeat match goal with
+           | |- context [match ?t with _ => _ end] => is_var t; destruct t; try discriminate
+           end.
+    match goal with |- (if ?c then _ else _) = _ -> _ => destruct c eqn:E; [|discriminate] end.
+    intros H. inversion H; subst. clear H.
+    repeat match goal with E : (_ && _)%bool = true |- _ => apply andb_prop in E; destruct E end.
+    repeat match goal with E : (_ =? _) = true |- _ => apply N.eqb_eq in E end.
+    match goal with E : idx_eqb _ _ = true |- _ => apply idx_eqb_eq in E end.
+    match goal with E : (_ <=? _) = true |- _ => apply N.leb_le in E end.
+    subst. split; [reflexivity|assumption].
   Qed.
 
   (* ---- syntactic facts about the checker ---- *)
@@ -88,6 +104,12 @@ Section Wk.
         split. { intros a Ha. rewrite wmem_cons, Ha, orb_true_r. reflexivity. }
         intros n E E0. rewrite wmem_cons, E0, orb_false_r in E. apply wn_eqb_eq in E. subst n.
         exists p0. unfold cons_of. cbn. rewrite N.eqb_refl. cbn. auto. }
+      destruct (is_trunc s1 s2) as [[[[[tx tw] tf] tidx] twf]|] eqn:ET.
+      { destruct (is_trunc_spec _ _ _ _ _ _ _ ET) as (Es & _). unfold trunc_stmt in Es. inversion Es; subst s1 s2. clear Es.
+        match type of H with (if ?b then _ else _) = Some _ => destruct b; [|discriminate] end. inversion H; subst. clear H.
+        cbn [loop_cons app] in HQ. destruct (pos_of x tidx) as [p0|] eqn:Ep; [|discriminate]. inversion HQ; subst Q. clear HQ.
+        split. { intros a Ha. rewrite wmem_cons, Ha, orb_true_r. reflexivity. }
+        apply covers_one. }
       destruct (kchk Wtot v P s1 C L) as [[Ca La]|] eqn:E1; [|discriminate].
       destruct (loop_cons x s1) as [q1|] eqn:Q1; [|discriminate]. destruct (loop_cons x s2) as [q2|] eqn:Q2; [|discriminate].
       inversion HQ; subst Q.
@@ -165,6 +187,10 @@ Section Wk.
       { match type of H with (if ?b then _ else _) = Some _ => destruct b eqn:EB; [|discriminate] end. inversion H; subst. clear H.
         repeat match goal with E : (_ && _)%bool = true |- _ => apply andb_prop in E; destruct E end.
         eapply Hc; eauto. }
+      destruct (is_trunc s1 s2) as [[[[[tx tw] tf] tidx] twf]|] eqn:ET.
+      { match type of H with (if ?b then _ else _) = Some _ => destruct b eqn:EB; [|discriminate] end. inversion H; subst. clear H.
+        repeat match goal with E : (_ && _)%bool = true |- _ => apply andb_prop in E; destruct E end.
+        eapply Hc; eauto. }
       destruct (kchk Wtot v P s1 C L) as [[Ca La]|] eqn:E1; [|discriminate].
       destruct (IHs2 _ _ _ _ _ H a Ha) as [H1|H1]; [|right; exact H1]. eapply IHs1; eauto.
     - destruct (ver_only v c) as [z|] eqn:Ev.
@@ -196,6 +222,12 @@ Section Wk.
         repeat match goal with E : (_ && _)%bool = true |- _ => apply andb_prop in E; destruct E end.
         repeat match goal with E : negb _ = true |- _ => apply negb_true_iff in E end.
         apply wk_vecresize; try assumption. apply N.ltb_lt. assumption. }
+      destruct (is_trunc s1 s2) as [[[[[tx tw] tf] tidx] twf]|] eqn:ET.
+      { destruct (is_trunc_spec _ _ _ _ _ _ _ ET) as (Es & Hle). rewrite Es.
+        match type of H with (if ?b then _ else _) = Some _ => destruct b eqn:EB; [|discriminate] end. inversion H; subst. clear H.
+        repeat match goal with E : (_ && _)%bool = true |- _ => apply andb_prop in E; destruct E end.
+        repeat match goal with E : negb _ = true |- _ => apply negb_true_iff in E end.
+        apply wk_trunc; assumption. }
       destruct (kchk Wtot v P s1 C L) as [[C1 L1]|] eqn:E1; [|discriminate]. eapply wk_seq; eauto.
     - destruct (ver_only v c) as [z|] eqn:Ev.
       + eapply wk_if_ver; [exact Ev|]. destruct (Z.eqb z 0); auto.
